@@ -22,7 +22,9 @@ Definition delivery := (N * list (skey * N))%type.      (* offset, batch in deli
 
 Inductive c11case :=
 | CHistory (t : trace)
-| CScan (evs : list sobs) (runs : list (N * list delivery)) (rs : option srestart).
+| CScan (evs : list sobs) (runs : list (N * list delivery)) (rs : option srestart)
+| CBroken.   (* the harness could not run the case to its end (a call of the real code that does not return, a
+                panic, steps the driver cannot follow): rejected by both checks, the text is in the replay *)
 
 (* ================= agrees: the implementation model ================= *)
 Definition sv_eqb (x y : skey * N) : bool := skey_eqb (fst x) (fst y) && (snd x =? snd y).
@@ -67,6 +69,7 @@ Definition agrees_c (c : c11case) : bool :=
   match c with
   | CHistory t => agrees t
   | CScan evs runs rs => scan_agrees seq_scan_skips_reserved_ids evs runs rs
+  | CBroken => false
   end.
 
 (* ================= satisfies: the property on the observed values ================= *)
@@ -131,4 +134,5 @@ Definition satisfies_c (c : c11case) : bool :=
   match c with
   | CHistory t => satisfies t
   | CScan evs runs rs => scan_satisfies evs runs rs
+  | CBroken => false
   end.
